@@ -74,10 +74,14 @@ def stream_cipher(ctx, res, nkeys):
                 case = {"stream": "cipher", "key": key.hex(), "method": method, "plaintext": pt.hex()}
                 nt = (method != "xor" and ln > 16 and ln % 16 != 0) or (method == "xor" and ln > 32)
                 res.case((method, ln, ki) if nt else None, sample=case, kind="enc:" + method)
-                with Urandom() as ur:
-                    with KeyFile(kp) as kf:
-                        sv1 = kf.encrypt(pt, method)
-                        sv2 = kf.encrypt(pt, method)
+                try:
+                    with Urandom() as ur:
+                        with KeyFile(kp) as kf:
+                            sv1 = kf.encrypt(pt, method)
+                            sv2 = kf.encrypt(pt, method)
+                except Exception as e:  # noqa
+                    res.violate("C08:valid-key-unusable", "encrypting under a key file that holds exactly 32 bytes raised %s" % type(e).__name__, dict(case, error=str(e)[:120]))
+                    continue
                 if sv1.method not in ("aes", "xor") or (method == "best" and sv1.method != "aes") or (method != "best" and sv1.method != method):
                     res.violate(None, "recorded method is not the concrete one", dict(case, recorded=sv1.method))
                 try:
